@@ -388,14 +388,14 @@ func head(b []byte, n int) []byte {
 // ---- supervisor ----
 
 type c15Result struct {
-	started, ended                  int
-	lastStart                       string
-	lastIdx                         int
-	verdicts                        map[int]string
-	classes                         map[int]string
-	stages                          map[int]string
-	hexes                           map[int]string
-	canary                          string
+	started, ended int
+	lastStart      string
+	lastIdx        int
+	verdicts       map[int]string
+	classes        map[int]string
+	stages         map[int]string
+	hexes          map[int]string
+	canary         string
 }
 
 func readJournal(path string) *c15Result {
@@ -567,7 +567,7 @@ func RunC15(tier string, seed int64, race bool) int {
 					}
 					run.Eval(1)
 					run.Violate(common.Violation{Clause: "process-keeps-running", Signature: deathSig(kind2, classRoot(res.classes[i]), topRepoFrame(stderr2)),
-						Detail: fmt.Sprintf("worker process died (%s) on input %s at stage %s; reproduced alone; first lines: %s", kind2, res.classes[i], res.stages[i], firstLines(stderr2, 4)),
+						Detail:  fmt.Sprintf("worker process died (%s) on input %s at stage %s; reproduced alone; first lines: %s", kind2, res.classes[i], res.stages[i], firstLines(stderr2, 4)),
 						Witness: map[string]interface{}{"kind": "hostile-input", "class": res.classes[i], "stage": res.stages[i], "bytes_hex_prefix": res.hexes[i], "seed": seed, "batch": b, "index": i, "per_batch": perBatch}})
 				}
 				from = i + 1 // resume the batch after the fatal case
